@@ -848,7 +848,7 @@ func genExhaustive(w *out.W, tier string) {
 // change list goes to sqlx.SortChanges directly.
 func genRaw(w *out.W, tier string) {
 	w.Exhaust = true
-	w.Rule = "raw SortChanges (no DetachCycles before it): every FK graph with self loops over n<=3 tables x every split created/dropped/modified x 4 readings x every input order, then seeded random change sets of 2..8 tables (quick 4000, thorough 60000). Compared: exact output order. Oracle: no panic/loop, output is a permutation of the input. Non-trivial = SortChanges moved something"
+	w.Rule = "raw SortChanges (no DetachCycles before it): every FK graph with self loops over n<=3 tables x every split created/dropped/modified x 4 readings x every input order, then the three tables s1.t1, s2.t1, s1.t2 (same name in two schemas) x roles created/dropped/modified/kept x every FK graph without self loops x 2 readings x every order, then seeded random change sets of 2..8 tables (quick 4000, thorough 60000). Compared: exact output order. Oracle: no panic/loop, output is a permutation of the input. Non-trivial = SortChanges moved something"
 	id := 0
 	for n := 1; n <= 3; n++ {
 		ps := perms(n)
@@ -860,6 +860,33 @@ func genRaw(w *out.W, tier string) {
 					for _, p := range ps {
 						id++
 						runRawCase(w, fmt.Sprintf("w%d-%d", n, id), mkScenario(n, roles, adj, variant, p), fmt.Sprintf("n:%d", n))
+					}
+				}
+			}
+		}
+	}
+	// two schemas with same-named tables (round 3): s1.t1, s2.t1, s1.t2 x roles x FK graphs without self
+	// loops (cross-schema keys included) x 2 readings x every order -- dependsOn's SameTable / SameSchema
+	// tests on forward edges, which DetachCycles never leaves to SortChanges
+	{
+		names := []int{qname(1, 1), qname(2, 1), qname(1, 2)}
+		n := 3
+		ps := perms(n)
+		for bits := uint64(0); bits < 1<<uint(n*n); bits++ {
+			adj := adjOf(n, bits)
+			if adj[0][0] || adj[1][1] || adj[2][2] {
+				continue
+			}
+			for split := 0; split < pow(4, n); split++ {
+				roles := []int{split % 4, split / 4 % 4, split / 16 % 4}
+				for _, variant := range []int{0, 3} {
+					for _, p := range ps {
+						id++
+						sc := mkScenarioQ(n, names, roles, adj, variant, p)
+						if len(sc.cs) == 0 {
+							continue
+						}
+						runRawCase(w, fmt.Sprintf("ws-%d", id), sc, "two-schemas")
 					}
 				}
 			}
@@ -1210,7 +1237,7 @@ func schTags(sc *scenario, tags ...string) []string {
 
 func genSchemas(w *out.W, tier string) {
 	w.Exhaust = true
-	w.Rule = "change sets over two schemas with same-named tables; every case is planned 3 times from the same slice value (DetachCycles+SortChanges, SortChanges of the same detached list twice, mysql.DefaultPlan, postgres.DefaultPlan): the plans must be identical, the slice, the Changes of its ModifyTables and the tables' ForeignKeys untouched, the LAST plan is the one judged and compared. (a) exhaustive: the three tables s1.t1, s2.t1, s1.t2 x every role created/dropped/modified/kept (4^3) x every FK graph without self loops incl. cross-schema keys (2^6; thorough: with self loops 2^9) x readings of a modified table's edges (quick 2, thorough 4) x every input order. (b) a cycle of length 2 or 3 in schema s1 (all created / all dropped / all modified, 4 readings) x for each cycle table a same-named twin in s2 that is absent/created/dropped/modified/kept (5^L - 1) x twin keys (none / the same cycle among the twins / twin -> its namesake in s1 / namesake -> twin) x order (schema by schema, twins first, alternating, reversed) x with and without the schema-level changes of a realm diff in front (AddSchema when all tables of the schema are created, DropSchema when all are dropped, ModifySchema otherwise). (c) seeded random: 4..8 tables over 3 schemas x 3 base names. Oracle as in the other stages (tables identified by (schema, name)) + replan-differs, input-mutated, schema-change-not-once (each schema-level change is in the executed plan exactly once). Non-trivial = the planned order differs from the input order"
+	w.Rule = "change sets over two schemas with same-named tables; every case is planned 3 times from the same slice value (DetachCycles+SortChanges, SortChanges of the same detached list twice, mysql.DefaultPlan, postgres.DefaultPlan): the plans must be identical, the slice, the Changes of its ModifyTables and the tables' ForeignKeys untouched, the LAST plan is the one judged and compared. (a) exhaustive: the three tables s1.t1, s2.t1, s1.t2 x every role created/dropped/modified/kept (4^3) x every FK graph without self loops incl. cross-schema keys (2^6; thorough: with self loops 2^9) x readings of a modified table's edges (quick 2; thorough 4, 2 on graphs with self loops) x every input order. (b) a cycle of length 2 or 3 in schema s1 (all created / all dropped / all modified, 4 readings) x for each cycle table a same-named twin in s2 that is absent/created/dropped/modified/kept (5^L - 1) x twin keys (none / the same cycle among the twins / twin -> its namesake in s1 / namesake -> twin) x order (schema by schema, twins first, alternating, reversed) x with and without the schema-level changes of a realm diff in front (AddSchema when all tables of the schema are created, DropSchema when all are dropped, ModifySchema otherwise). (c) seeded random: 4..8 tables over 3 schemas x 3 base names. Oracle as in the other stages (tables identified by (schema, name)) + replan-differs, input-mutated, schema-change-not-once (each schema-level change is in the executed plan exactly once). Non-trivial = the planned order differs from the input order"
 	id := 0
 	// (a)
 	{
@@ -1226,9 +1253,13 @@ func genSchemas(w *out.W, tier string) {
 			if tier != "thorough" && (adj[0][0] || adj[1][1] || adj[2][2]) {
 				continue
 			}
+			selfLoop := adj[0][0] || adj[1][1] || adj[2][2]
 			for split := 0; split < pow(4, n); split++ {
 				roles := []int{split % 4, split / 4 % 4, split / 16 % 4}
 				for _, variant := range variants {
+					if selfLoop && variant != 0 && variant != 3 {
+						continue
+					}
 					for _, p := range ps {
 						id++
 						sc := mkScenarioQ(n, names, roles, adj, variant, p)
